@@ -101,6 +101,29 @@ func init() {
 		body += "Definition live_ignored_errors : list string := " + coqStrList(liveIgnored) + ".\n\n"
 		body += "(* group.go getAndFilterGroupDeviceChainKeyAddedPayload: condition => error, in order *)\n"
 		body += "Definition filter_rejects : list string := " + coqStrList(rejects) + ".\n"
+		// ActivateGroupContext: the calls that matter for "which entries does the device get to see", in source order
+		// (calls inside the goroutines it starts included)
+		var act []string
+		if fd := funcDecl(f, "GroupContext", "ActivateGroupContext"); fd != nil && fd.Body != nil {
+			ast.Inspect(fd.Body, func(n ast.Node) bool {
+				if c, ok := n.(*ast.CallExpr); ok {
+					name := ""
+					switch f := c.Fun.(type) {
+					case *ast.SelectorExpr:
+						name = f.Sel.Name
+					case *ast.Ident:
+						name = f.Name
+					}
+					switch name {
+					case "Subscribe", "handleGroupMetadataEvent", "fillMessageKeysHolderUsingPreviousData", "sendSecretsToExistingMembers", "AddDeviceToGroup":
+						act = append(act, name)
+					}
+				}
+				return true
+			})
+		}
+		body += "\n(* ActivateGroupContext: subscription to new metadata events, the live handler, the scan of the log as it stands,\n   the announcements to existing members and the own device announcement, in source order *)\n"
+		body += "Definition activate_order : list string := " + coqStrList(act) + ".\n"
 		write("Distribution.v", body)
 	})
 }
